@@ -123,7 +123,7 @@ fn traversal(which: usize) {
         }
     }
 
-    kani::cover!(s >= 3, "an out-of-range source was handled");
+    kani::cover!(s >= 3, "WITNESS: an out-of-range source id");
 }
 
 /// A user-built PredecessorTree with UNCONSTRAINED entries.
@@ -141,6 +141,7 @@ fn pred_tree_unconstrained() {
     let r = tree.search(s, t);
 
     kani::cover!(r.is_none(), "a search that ends without a hit");
+    kani::cover!(matches!(tree[s], Some(x) if x >= 3), "WITNESS: an out-of-range predecessor entry on the chain");
     core::mem::forget(r);
     core::mem::forget(tree);
 }
@@ -224,14 +225,14 @@ fn map_noncontiguous(which: usize) {
         }
     }
 
-    kani::cover!(g.a[0][2], "an arc into the vertex with the largest id");
+    kani::cover!(g.a[0][2], "WITNESS: an arc into the vertex with the largest id");
     core::mem::forget(d);
 }
 
 macro_rules! trav {
     ($name:ident, $k:expr) => {
         #[cfg_attr(kani, kani::proof)]
-        #[cfg_attr(kani, kani::unwind(6))]
+        #[cfg_attr(kani, kani::unwind(8))]
         pub fn $name() {
             traversal($k);
         }
@@ -239,81 +240,81 @@ macro_rules! trav {
 }
 
 // Bfs::new + next() with an unconstrained source id on every 3-vertex digraph (real Vec: exact bounds).
-// @verif prop=C13 tier=quick fl=f1 role=oob-source/bfs t=900 mem=12 miri=1
+// @verif prop=C13 tier=quick fl=f2 role=oob-source/bfs t=900 mem=12 miri=1 allow=panic
 #[cfg_attr(kani, kani::proof)]
-#[cfg_attr(kani, kani::unwind(6))]
+#[cfg_attr(kani, kani::unwind(8))]
 pub fn c13_source_bfs() {
     traversal(0);
 }
 
-// @verif prop=C13 tier=quick fl=f1 role=oob-source/bfs-dist t=900 mem=12 miri=1
+// @verif prop=C13 tier=quick fl=f2 role=oob-source/bfs-dist t=900 mem=12 miri=1 allow=panic
 #[cfg_attr(kani, kani::proof)]
-#[cfg_attr(kani, kani::unwind(6))]
+#[cfg_attr(kani, kani::unwind(8))]
 pub fn c13_source_bfs_dist() {
     traversal(1);
 }
 
-// @verif prop=C13 tier=quick fl=f1 role=oob-source/bfs-pred t=900 mem=12 miri=1
+// @verif prop=C13 tier=quick fl=f2 role=oob-source/bfs-pred t=900 mem=12 miri=1 allow=panic
 #[cfg_attr(kani, kani::proof)]
-#[cfg_attr(kani, kani::unwind(6))]
+#[cfg_attr(kani, kani::unwind(8))]
 pub fn c13_source_bfs_pred() {
     traversal(2);
 }
 
-// @verif prop=C13 tier=quick fl=f1 role=oob-source/dfs t=900 mem=12 miri=1
+// @verif prop=C13 tier=quick fl=f2 role=oob-source/dfs t=900 mem=12 miri=1 allow=panic
 #[cfg_attr(kani, kani::proof)]
-#[cfg_attr(kani, kani::unwind(6))]
+#[cfg_attr(kani, kani::unwind(8))]
 pub fn c13_source_dfs() {
     traversal(3);
 }
 
-// @verif prop=C13 tier=quick fl=f1 role=oob-source/dfs-dist t=900 mem=12 miri=1
+// @verif prop=C13 tier=quick fl=f2 role=oob-source/dfs-dist t=900 mem=12 miri=1 allow=panic
 #[cfg_attr(kani, kani::proof)]
-#[cfg_attr(kani, kani::unwind(6))]
+#[cfg_attr(kani, kani::unwind(8))]
 pub fn c13_source_dfs_dist() {
     traversal(4);
 }
 
-// @verif prop=C13 tier=quick fl=f1 role=oob-source/dfs-pred t=900 mem=12 miri=1
+// @verif prop=C13 tier=quick fl=f2 role=oob-source/dfs-pred t=900 mem=12 miri=1 allow=panic
 #[cfg_attr(kani, kani::proof)]
-#[cfg_attr(kani, kani::unwind(6))]
+#[cfg_attr(kani, kani::unwind(8))]
 pub fn c13_source_dfs_pred() {
     traversal(5);
 }
 
-// @verif prop=C13 tier=quick fl=f1 role=oob-source/dijkstra t=900 mem=12 miri=1
+// @verif prop=C13 tier=quick fl=f2 role=oob-source/dijkstra t=900 mem=12 miri=1 allow=panic
 #[cfg_attr(kani, kani::proof)]
-#[cfg_attr(kani, kani::unwind(6))]
+#[cfg_attr(kani, kani::unwind(8))]
 pub fn c13_source_dijkstra() {
     traversal(6);
 }
 
-// @verif prop=C13 tier=quick fl=f1 role=oob-source/dijkstra-dist t=900 mem=12 miri=1
+// @verif prop=C13 tier=quick fl=f2 role=oob-source/dijkstra-dist t=900 mem=12 miri=1 allow=panic
 #[cfg_attr(kani, kani::proof)]
-#[cfg_attr(kani, kani::unwind(6))]
+#[cfg_attr(kani, kani::unwind(8))]
 pub fn c13_source_dijkstra_dist() {
     traversal(7);
 }
 
-// @verif prop=C13 tier=quick fl=f1 role=oob-source/dijkstra-pred t=900 mem=12 miri=1
+// @verif prop=C13 tier=quick fl=f2 role=oob-source/dijkstra-pred t=900 mem=12 miri=1 allow=panic
 #[cfg_attr(kani, kani::proof)]
-#[cfg_attr(kani, kani::unwind(6))]
+#[cfg_attr(kani, kani::unwind(8))]
 pub fn c13_source_dijkstra_pred() {
     traversal(8);
 }
 
 // PredecessorTree with unconstrained entries: search must return or panic.
-// @verif prop=C13 tier=quick fl=f1 role=oob-entry/predecessor-tree t=900 mem=12 miri=1
+// @verif prop=C13 tier=quick fl=f2 role=oob-entry/predecessor-tree t=900 mem=12 miri=1 allow=panic
 #[cfg_attr(kani, kani::proof)]
-#[cfg_attr(kani, kani::unwind(6))]
+#[cfg_attr(kani, kani::unwind(8))]
 pub fn c13_pred_tree_unconstrained() {
     pred_tree_unconstrained();
 }
 
 // AdjacencyMatrix::empty(any order >= 2) + add_arc + has_arc + remove_arc.
-// @verif prop=C13 tier=quick fl=f0 role=order-overflow/matrix t=900 mem=12 miri=1
+// @verif prop=C13 tier=quick fl=f0 role=order-overflow/matrix t=900 mem=12 miri=1 allow=panic
 #[cfg_attr(kani, kani::proof)]
-#[cfg_attr(kani, kani::unwind(4))]
+#[cfg_attr(kani, kani::unwind(8))]
 pub fn c13_matrix_any_order() {
     matrix_any_order();
 }
@@ -321,7 +322,7 @@ pub fn c13_matrix_any_order() {
 // DistanceMatrix::new(order >= 2^32): the checked multiplication must panic.
 // @verif prop=C13 tier=quick fl=f0 role=order-overflow/distance-matrix t=900 mem=12 expect=panic
 #[cfg_attr(kani, kani::proof)]
-#[cfg_attr(kani, kani::unwind(4))]
+#[cfg_attr(kani, kani::unwind(8))]
 pub fn c13_distance_matrix_any_order() {
     distance_matrix_any_order();
 }
@@ -329,27 +330,27 @@ pub fn c13_distance_matrix_any_order() {
 // BellmanFordMoore::new(s >= order) must panic before indexing.
 // @verif prop=C13 tier=quick fl=f1 role=oob-source/bellman-ford t=900 mem=12 expect=panic
 #[cfg_attr(kani, kani::proof)]
-#[cfg_attr(kani, kani::unwind(6))]
+#[cfg_attr(kani, kani::unwind(8))]
 pub fn c13_bfm_source_out_of_range() {
     bfm_source_out_of_range();
 }
 
 // AdjacencyMap {0, 2, 5}: converse indexes a Vec of `order` rows by vertex id.
-// @verif prop=C13 tier=quick fl=f1 role=noncontiguous/converse t=1200 mem=12 miri=1
+// @verif prop=C13 tier=quick fl=f1 role=noncontiguous/converse t=1200 mem=12 miri=1 allow=panic
 #[cfg_attr(kani, kani::proof)]
 #[cfg_attr(kani, kani::unwind(10))]
 pub fn c13_map_noncontiguous_converse() {
     map_noncontiguous(0);
 }
 
-// @verif prop=C13 tier=quick fl=f1 role=noncontiguous/is-semicomplete t=1200 mem=12 miri=1
+// @verif prop=C13 tier=quick fl=f1 role=noncontiguous/is-semicomplete t=1200 mem=12 miri=1 allow=panic
 #[cfg_attr(kani, kani::proof)]
 #[cfg_attr(kani, kani::unwind(10))]
 pub fn c13_map_noncontiguous_is_semicomplete() {
     map_noncontiguous(1);
 }
 
-// @verif prop=C13 tier=quick fl=f1 role=noncontiguous/is-tournament t=1200 mem=12 miri=1
+// @verif prop=C13 tier=quick fl=f1 role=noncontiguous/is-tournament t=1200 mem=12 miri=1 allow=panic
 #[cfg_attr(kani, kani::proof)]
 #[cfg_attr(kani, kani::unwind(10))]
 pub fn c13_map_noncontiguous_is_tournament() {
